@@ -114,7 +114,7 @@ func marshal(s reflect.Value, bytes []byte) error {
 						case tByte:
 							value := vre.FindStringSubmatch(tag)
 							if value != nil {
-								v, err := strconv.ParseUint(value[1], 16, 8)
+								v, err := strconv.ParseUint(value[1], 0, 8)
 								if err != nil {
 									return err
 								}
@@ -325,7 +325,7 @@ func unmarshal(bytes []byte, s reflect.Value) error {
 				case tByte:
 					value := vre.FindStringSubmatch(tag)
 					if value != nil {
-						v, err := strconv.ParseUint(value[1], 16, 8)
+						v, err := strconv.ParseUint(value[1], 0, 8)
 						if err != nil {
 							return err
 						}
